@@ -194,6 +194,7 @@ EFFECTFUL_CALLEES = {
     'self._start_reception_after_first_frame_if_valid',
     'self.tx_queue.get', 'self.tx_queue.get_nowait', 'self.rx_queue.get', 'self.rx_queue.get_nowait',
     'self.active_send_request.generator.consume',
+    'self.rxfn', 'self._process_rx', 'self._process_tx',
 }
 
 
